@@ -33,7 +33,18 @@ def run(tier, rep):
     jobs = [(n, dict(spec=s, user=EPISODE, policy=POLS[(i + sd) % 3])) for i, (n, s) in enumerate(members)]
     pairs = _pairs(tier)
     pjobs = [(n, dict(spec=s, user=EPISODE, policy=POLS[(i + sd) % 3])) for i, (n, s) in enumerate(pairs)]
+    # expected delays changed through the public set_delay between two episodes of the same graph object: the schedule of
+    # the second episode must follow the new phases
+    sjobs = []
+    two = lambda op: [["reset"]] + [["step"]] * 3 + [["stop"], op, ["reset"]] + [["step"]] * 4 + [["stop"]]  # noqa
+    for bi, (bn, b) in enumerate([x for x in H.fasync_bases() if x[0].startswith(("chain.BL.w1", "chain.NL.w1", "chainX.BL.16-16", "cyc2.NL-NLs.16-16"))]):
+        if tier == "quick" and (bi + sd) % 3 != 0:
+            continue
+        for op in (["set_delay", "node", "a", 3], ["set_delay", "edge", 0, 6], ["set_delay", "node", "a", 0]):
+            sjobs.append((f"{bn}|{op[1]}{op[2]}={op[3]}", dict(spec=b, user=two(op), policy=POLS[(bi + sd) % 3])))
     with Pool() as pool:
+        st = run_family(pool, sjobs, JUDGE)
+        report(rep, "set_delay_between_episodes_d0", st, 0, JUDGE, family=True)
         st = run_family(pool, jobs, JUDGE)
         report(rep, "family_single_deviations_d0", st, 0, JUDGE, family=True)
         st = run_family(pool, pjobs, JUDGE)
